@@ -67,7 +67,9 @@ func c09Variants(k universe.Kind) []c09Variant {
 		}
 	case universe.KNLV:
 		return []c09Variant{
-			{"lang1", func(v int) any { return ap.NaturalLanguageValues{{Ref: "-", Value: ap.Content(fmt.Sprintf("text %d", v))}} }},
+			{"lang1", func(v int) any {
+				return ap.NaturalLanguageValues{{Ref: "-", Value: ap.Content(fmt.Sprintf("text %d", v))}}
+			}},
 			{"lang2", func(v int) any {
 				return ap.NaturalLanguageValues{{Ref: "en", Value: ap.Content("same")}, {Ref: "fr", Value: ap.Content(fmt.Sprintf("texte %d", v))}}
 			}},
@@ -140,14 +142,18 @@ func c09Run(c *engine.Ctx) {
 	}{
 		{"IRI", func() ap.Item { return ap.IRI("https://example.com/x") }},
 		{"IRI-query", func() ap.Item { return ap.IRI("https://example.com/x?a=1&b=2#f") }},
-		{"ItemCollection[iri,iri]", func() ap.Item { return ap.ItemCollection{ap.IRI("https://example.com/1"), ap.IRI("https://example.com/2")} }},
+		{"ItemCollection[iri,iri]", func() ap.Item {
+			return ap.ItemCollection{ap.IRI("https://example.com/1"), ap.IRI("https://example.com/2")}
+		}},
 		{"ItemCollection[obj,iri]", func() ap.Item {
 			return ap.ItemCollection{&ap.Object{ID: "https://example.com/1", Type: ap.NoteType}, ap.IRI("https://example.com/2")}
 		}},
 		{"ItemCollection[obj-noid]", func() ap.Item {
 			return ap.ItemCollection{&ap.Object{Type: ap.NoteType, Name: ap.NaturalLanguageValues{{Ref: "-", Value: ap.Content("anon")}}}}
 		}},
-		{"ItemCollection[link]", func() ap.Item { return ap.ItemCollection{&ap.Link{ID: "https://example.com/l", Type: ap.LinkType, Href: "https://example.com/h"}} }},
+		{"ItemCollection[link]", func() ap.Item {
+			return ap.ItemCollection{&ap.Link{ID: "https://example.com/l", Type: ap.LinkType, Href: "https://example.com/h"}}
+		}},
 		{"*ItemCollection[iri]", func() ap.Item { c := ap.ItemCollection{ap.IRI("https://example.com/1")}; return &c }},
 		{"ItemCollection[]", func() ap.Item { return ap.ItemCollection{} }},
 		{"IRIs[2]", func() ap.Item { return ap.IRIs{"https://example.com/1", "https://example.com/2"} }},
@@ -188,7 +194,9 @@ func c09Run(c *engine.Ctx) {
 	for _, n1 := range nils {
 		n1 := n1
 		class := "C09|nil|" + n1.name
-		c.Do(class, func() string { return n1.name + " against every nil-like and every non-nil representative, both orders" }, func(t *engine.T) {
+		c.Do(class, func() string {
+			return n1.name + " against every nil-like and every non-nil representative, both orders"
+		}, func(t *engine.T) {
 			t.Distinct(true)
 			for _, n2 := range nils {
 				if !c09Eq(t, n1.it, n2.it) {
